@@ -165,4 +165,16 @@ def Cmd.wfTreeB : Nat → Cmd → Bool
   | 0, c => c.wfLevelB && c.subs.isEmpty
   | n+1, c => c.wfLevelB && c.subs.all (Cmd.wfTreeB n)
 
+/-- clap's checks on one level as the user wrote it (decidable form of `UserLevelOk`) -/
+def Cmd.userLevelB (c : Cmd) : Bool :=
+  decide ((c.args.map (·.id)).Nodup) &&
+  (c.args.all fun a => a.id != Build.b_help && a.id != Build.b_version) &&
+  (c.args.all fun a => !a.index.isSome || a.isPositional) &&
+  (c.args.all fun a => !a.isPositional || a.aliases.isEmpty) &&
+  (c.groups.all fun g => g.args.all fun n => (c.args.any fun a => a.id == n) || (c.groups.any fun g' => g'.id == n))
+
+def Cmd.userTreeB : Nat → Cmd → Bool
+  | 0, c => c.userLevelB && c.subs.isEmpty
+  | n+1, c => c.userLevelB && c.subs.all (Cmd.userTreeB n)
+
 end Clap
